@@ -131,6 +131,7 @@ structure ClientView where
   certReq : Option (Nat × Nat)   -- CertificateRequest
   done : Bool                    -- ServerHelloDone came
   fin : Option Val               -- verify_data of the server's Finished (`none`: none came, or the record layer refused it)
+  inOrder : Bool := true         -- no message of another type (or a duplicate) arrived where these were read
 
 def Client.hello (c : Client) : CHello := ⟨versionGMSSL, c.random, 0, c.suites, [0], c.ext⟩
 
@@ -215,7 +216,7 @@ def clientChecks1 (P : Prims) (c : Client) (v : ClientView) : List (Reason × Bo
     (.chain, c.insecureSkipVerify || serverChainOK P c v.ders 1),
     (.unexpectedMessage, v.ske.isSome),
     (.skeSignature, skeOK P c v),
-    (.unexpectedMessage, v.done) ]
+    (.unexpectedMessage, v.done && v.inOrder) ]
 
 def clientChecks (P : Prims) (c : Client) (v : ClientView) : List (Reason × Bool) :=
   clientChecks1 P c v ++ [ (.finished, v.fin == some (expectedServerFinished P c v)) ]
@@ -258,6 +259,7 @@ structure ServerView where
   cke : Option Val               -- ClientKeyExchange ciphertext
   cv : Option Val                -- CertificateVerify signature
   fin : Option Val               -- verify_data of the client's Finished
+  inOrder : Bool := true         -- no message of another type (or a duplicate) arrived where these were read
 
 /-- `Config.mutualVersion` with the default bounds (min GMSSL 0x0101, max TLS 1.2) -/
 def mutualVersion (v : Nat) : Option Nat :=
@@ -341,7 +343,7 @@ def serverHelloChecks (s : Server) (ch : CHello) : List (Reason × Bool) :=
 
 def serverChecks (P : Prims) (s : Server) (v : ServerView) : List (Reason × Bool) :=
   serverHelloChecks s v.ch ++ certPolicyChecks P s v.cert ++
-  [ (.unexpectedMessage, v.cke.isSome),
+  [ (.unexpectedMessage, v.cke.isSome && v.inOrder),
     (.keyExchange, (serverMaster P s v).isSome),
     (.certVerify, cvOK P s v),
     (.unexpectedMessage, v.fin.isSome),
@@ -357,8 +359,9 @@ def serverVerdict (P : Prims) (s : Server) (v : ServerView) : Option Reason := f
 /-- the client's second flight (before ChangeCipherSpec) -/
 structure ClientFlight where
   cert : Option (List Nat)
-  cke : Val
+  cke : Option Val
   cv : Option Val
+  inOrder : Bool := true
 deriving DecidableEq, Repr
 
 /-- the server's first flight, field by field -/
@@ -368,25 +371,28 @@ structure ServerFlight where
   ske : Option Val
   certReq : Option (Nat × Nat)
   done : Bool
+  inOrder : Bool := true
 deriving DecidableEq, Repr
 
 /-- the network: what each flight looks like on arrival (identity = nobody interferes) -/
 structure Wire where
-  ch : CHello → CHello := id
+  ch : CHello → Option CHello := some       -- `none`: the ClientHello never arrives
   s2c : ServerFlight → ServerFlight := id
   c2s : ClientFlight → ClientFlight := id
   finC : Option Val → Option Val := id      -- the client's Finished as the server's record layer delivers it
   finS : Option Val → Option Val := id      -- the server's Finished as the client's record layer delivers it
 
 def serverFlightOf (P : Prims) (s : Server) (ch : CHello) : ServerFlight :=
-  ⟨s.hello ch, s.certs, some (serverSKE P s ch), if s.clientAuth.requests then some s.certReq else none, true⟩
+  ⟨s.hello ch, s.certs, some (serverSKE P s ch), if s.clientAuth.requests then some s.certReq else none, true, true⟩
 
 def clientFlightOf (P : Prims) (c : Client) (v : ClientView) : ClientFlight :=
-  ⟨if v.certReq.isSome then some c.cert else none, P.enc (encKeyOf P v) c.pms, clientCV P c v⟩
+  ⟨if v.certReq.isSome then some c.cert else none, some (P.enc (encKeyOf P v) c.pms), clientCV P c v, true⟩
 
 structure Outcome where
   clientDone : Bool
   serverDone : Bool
+  sflight : Option ServerFlight := none     -- what the server sent first
+  cflight : Option ClientFlight := none     -- what the client answered
   cview : Option ClientView := none
   sview : Option ServerView := none
 
@@ -394,17 +400,21 @@ structure Outcome where
     sends what the code computes from what it received, and stops at its first failing check.  The server
     sends its Finished only after accepting the client's; the client completes only after verifying it. -/
 def run (P : Prims) (c : Client) (s : Server) (w : Wire) : Outcome :=
-  let ch := w.ch c.hello
-  let v0 : ServerView := ⟨ch, none, none, none, none⟩
-  if !allPass (serverHelloChecks s ch) then ⟨false, false, none, some v0⟩ else
-  let f := w.s2c (serverFlightOf P s ch)
-  let cv1 : ClientView := ⟨f.sh, f.ders, f.ske, f.certReq, f.done, none⟩
-  if !clientProceeds P c cv1 then ⟨false, false, some cv1, some v0⟩ else
-  let g := w.c2s (clientFlightOf P c cv1)
-  let sv : ServerView := ⟨ch, g.cert, some g.cke, g.cv, w.finC (some (clientFinished P c cv1))⟩
-  if !serverAccepts P s sv then ⟨false, false, some cv1, some sv⟩ else
+  match w.ch c.hello with
+  | none => ⟨false, false, none, none, none, none⟩
+  | some ch =>
+  let v0 : ServerView := ⟨ch, none, none, none, none, true⟩
+  if !allPass (serverHelloChecks s ch) then ⟨false, false, none, none, none, some v0⟩ else
+  let f0 := serverFlightOf P s ch
+  let f := w.s2c f0
+  let cv1 : ClientView := ⟨f.sh, f.ders, f.ske, f.certReq, f.done, none, f.inOrder⟩
+  if !clientProceeds P c cv1 then ⟨false, false, some f0, none, some cv1, some v0⟩ else
+  let g0 := clientFlightOf P c cv1
+  let g := w.c2s g0
+  let sv : ServerView := ⟨ch, g.cert, g.cke, g.cv, w.finC (some (clientFinished P c cv1)), g.inOrder⟩
+  if !serverAccepts P s sv then ⟨false, false, some f0, some g0, some cv1, some sv⟩ else
   let cv2 : ClientView := { cv1 with fin := w.finS (some (serverFinished P s sv)) }
-  ⟨clientAccepts P c cv2, true, some cv2, some sv⟩
+  ⟨clientAccepts P c cv2, true, some f0, some g0, some cv2, some sv⟩
 
 -- an ideal instantiation of the primitives (used by the driver and by the examples) --------------------------------
 
